@@ -35,6 +35,13 @@ pub fn kind_tag(k: ErrorKind) -> &'static str {
         ErrorKind::WriteZero => "WriteZero",
         ErrorKind::InvalidData => "InvalidData",
         ErrorKind::Interrupted => "Interrupted",
+        ErrorKind::BrokenPipe => "BrokenPipe",
+        ErrorKind::ConnectionReset => "ConnectionReset",
+        ErrorKind::ConnectionAborted => "ConnectionAborted",
+        ErrorKind::NotFound => "NotFound",
+        ErrorKind::InvalidInput => "InvalidInput",
+        ErrorKind::Unsupported => "Unsupported",
+        ErrorKind::OutOfMemory => "OutOfMemory",
         _ => "Other",
     }
 }
@@ -47,6 +54,13 @@ pub fn kind_of_tag(s: &str) -> ErrorKind {
         "WouldBlock" => ErrorKind::WouldBlock,
         "WriteZero" => ErrorKind::WriteZero,
         "InvalidData" => ErrorKind::InvalidData,
+        "BrokenPipe" => ErrorKind::BrokenPipe,
+        "ConnectionReset" => ErrorKind::ConnectionReset,
+        "ConnectionAborted" => ErrorKind::ConnectionAborted,
+        "NotFound" => ErrorKind::NotFound,
+        "InvalidInput" => ErrorKind::InvalidInput,
+        "Unsupported" => ErrorKind::Unsupported,
+        "OutOfMemory" => ErrorKind::OutOfMemory,
         _ => ErrorKind::Other,
     }
 }
@@ -56,14 +70,18 @@ pub enum Ev {
     Chunk(Vec<u8>),
     Intr,
     Fail(ErrorKind),
+    /// one poll that reports end of input (an empty buffer / a read of 0 bytes) although the schedule goes on
+    Eof,
 }
 
-/// schedule syntax: `c<hex>` chunk, `i` Interrupted, `f<Kind>` fatal error.
+/// schedule syntax: `c<hex>` chunk, `i` Interrupted, `f<Kind>` fatal error, `e` one end-of-input indication.
 pub fn parse_sched(toks: &[&str]) -> Vec<Ev> {
     toks.iter()
         .map(|t| {
             if *t == "i" {
                 Ev::Intr
+            } else if *t == "e" {
+                Ev::Eof
             } else if let Some(k) = t.strip_prefix('f') {
                 Ev::Fail(kind_of_tag(k))
             } else {
@@ -102,6 +120,10 @@ impl BufRead for SchedReader {
                 Some(Ev::Intr) => {
                     self.evs.pop_front();
                     return Err(io::Error::new(ErrorKind::Interrupted, "intr"));
+                }
+                Some(Ev::Eof) => {
+                    self.evs.pop_front();
+                    return Ok(&[]);
                 }
                 Some(Ev::Fail(k)) => {
                     let k = *k;
